@@ -70,7 +70,7 @@ macro_rules! exec_rational {
                     }
                 }
                 "addi" | "subi" | "muli" | "divi" => {
-                    // rational (op) big integer on either side, I or U
+                    // rational (op) IBig on either side; reference forms convert first
                     let x = &w.$pool[a];
                     if x.numerator().bit_len() + x.denominator().bit_len() > MAXB {
                         return env.skip();
@@ -78,22 +78,17 @@ macro_rules! exec_rational {
                     macro_rules! ri {
                         ($tr:tt) => {{
                             let yi = &w.i[b];
-                            let yu = &w.u[b];
-                            match form % 14 {
+                            match form % 10 {
                                 0 => x.clone() $tr yi.clone(),
                                 1 => x $tr yi.clone(),
                                 2 => x.clone() $tr yi,
                                 3 => x $tr yi,
-                                4 => yi.clone() $tr x.clone(),
-                                5 => yi $tr x.clone(),
-                                6 => yi.clone() $tr x,
-                                7 => yi $tr x,
-                                8 => x $tr &<$T>::from(yi.clone()),
-                                9 => &<$T>::from(yi.clone()) $tr x,
-                                10 => x $tr yu,
-                                11 => yu $tr x,
-                                12 => x $tr &<$T>::from(yu.clone()),
-                                _ => &<$T>::from(yu.clone()) $tr x,
+                                4 => x $tr &<$T>::from(yi.clone()),
+                                5 => return rational_commuted(w, pid, dst, env, yi.clone() $tr x.clone()),
+                                6 => return rational_commuted(w, pid, dst, env, yi $tr x.clone()),
+                                7 => return rational_commuted(w, pid, dst, env, yi.clone() $tr x),
+                                8 => return rational_commuted(w, pid, dst, env, yi $tr x),
+                                _ => return rational_commuted(w, pid, dst, env, &<$T>::from(yi.clone()) $tr x),
                             }
                         }};
                     }
@@ -102,6 +97,38 @@ macro_rules! exec_rational {
                         "subi" => ri!(-),
                         "muli" => ri!(*),
                         _ => ri!(/),
+                    };
+                    w.$pool[dst] = r;
+                    env.res(pid, dst);
+                }
+                "addu" | "subu" | "mulu" | "divu" => {
+                    // rational (op) UBig on either side
+                    let x = &w.$pool[a];
+                    if x.numerator().bit_len() + x.denominator().bit_len() > MAXB {
+                        return env.skip();
+                    }
+                    macro_rules! ru {
+                        ($tr:tt) => {{
+                            let yu = &w.u[b];
+                            match form % 10 {
+                                0 => x.clone() $tr yu.clone(),
+                                1 => x $tr yu.clone(),
+                                2 => x.clone() $tr yu,
+                                3 => x $tr yu,
+                                4 => x $tr &<$T>::from(yu.clone()),
+                                5 => return rational_commuted(w, pid, dst, env, yu.clone() $tr x.clone()),
+                                6 => return rational_commuted(w, pid, dst, env, yu $tr x.clone()),
+                                7 => return rational_commuted(w, pid, dst, env, yu.clone() $tr x),
+                                8 => return rational_commuted(w, pid, dst, env, yu $tr x),
+                                _ => return rational_commuted(w, pid, dst, env, &<$T>::from(yu.clone()) $tr x),
+                            }
+                        }};
+                    }
+                    let r: $T = match rest {
+                        "addu" => ru!(+),
+                        "subu" => ru!(-),
+                        "mulu" => ru!(*),
+                        _ => ru!(/),
                     };
                     w.$pool[dst] = r;
                     env.res(pid, dst);
@@ -261,6 +288,20 @@ macro_rules! exec_rational {
                     let r = x.to_f32();
                     env.emit_f32("f32", r.value());
                 }
+                "parse" => {
+                    // text from the literal bytes (ASCII); a malformed or zero-denominator input must be refused
+                    let text = untracked(|| String::from_utf8_lossy(&op.lit).into_owned());
+                    let r = match form % 2 {
+                        0 => <$T>::from_str_radix(&text, 10),
+                        _ => <$T>::from_str_with_radix_prefix(&text).map(|v| v.0),
+                    };
+                    untracked(|| drop(text));
+                    match r {
+                        Ok(v) => w.$pool[dst] = v,
+                        Err(_) => env.emit_u64("refused", 1),
+                    }
+                    env.res(pid, dst);
+                }
                 "rt" => {
                     let x = &w.$pool[a];
                     if x.numerator().bit_len() + x.denominator().bit_len() > MAXB {
@@ -367,6 +408,26 @@ macro_rules! exec_rational {
             }
         }
     };
+}
+
+trait RatPool: Sized {
+    fn put(self, w: &mut World, dst: usize);
+}
+impl RatPool for RBig {
+    fn put(self, w: &mut World, dst: usize) {
+        w.r[dst] = self;
+    }
+}
+impl RatPool for Relaxed {
+    fn put(self, w: &mut World, dst: usize) {
+        w.x[dst] = self;
+    }
+}
+/// result of a form with the integer on the left (a different operation from the one with the integer on the
+/// right for - and /): stored the same way, compared only against its own reference form
+fn rational_commuted<T: RatPool>(w: &mut World, pid: Pool, dst: usize, env: &mut Env, v: T) {
+    v.put(w, dst);
+    env.res(pid, dst);
 }
 
 exec_rational!(exec_r, RBig, r, Pool::R);
